@@ -81,7 +81,8 @@ func checkSend(x *model.Exec, tm *thrModel, s *bgen.SendStep) (string, bool, []s
 		}
 	} else {
 		// no hook hit: the Broker had no graph for this type
-		if len(exp) > 0 {
+		if len(exp) > 0 && ctxErrAtReturn == nil {
+			// (with a context that is already done a Send may return before it starts anything)
 			return fmt.Sprintf("Send did not dispatch although %d pipeline(s) are registered for %s: %v", len(exp), s.ET, err), false, nil
 		}
 		if len(st.Complete())+len(st.CompleteSinks())+len(st.Warnings) != 0 {
